@@ -20,7 +20,7 @@ sys.path.insert(0, HERE)
 import extract  # noqa: E402
 
 DEFAULT_CHECKS = ["--bounds-check", "--pointer-check", "--div-by-zero-check", "--signed-overflow-check",
-                  "--undefined-shift-check", "--pointer-overflow-check"]
+                  "--undefined-shift-check"]
 MEM_LIMIT = int(os.environ.get("VERIF_MEM_GB", "10")) * (1 << 30)
 NPROC = int(os.environ.get("VERIF_JOBS", str(os.cpu_count() or 8)))
 
@@ -68,6 +68,11 @@ def generate(unit, scratch):
     parts_text = ['#include "cstd.h"\n']
     info = {"functions": [], "consts": [], "ghost_or_spec_parts": 0}
     for c in unit.get("consts", []):
+        if "pattern" in c:
+            t, infos = extract.extract_const_block(c)
+            parts_text.append(t)
+            info["consts"].extend(infos)
+            continue
         t, i = extract.extract_const(c)
         parts_text.append(t)
         info["consts"].append(i)
@@ -111,6 +116,8 @@ def parse_cbmc_json(out):
     for el in data:
         if "result" in el:
             results = el["result"]
+        elif "property" in el and "status" in el:   # --stop-on-fail form
+            results = (results or []) + [el]
         if "messageText" in el:
             msgs.append(el["messageText"])
         if "cProverStatus" in el:
@@ -126,7 +133,7 @@ def run_job(unit, job, cfile, scratch, canary=False):
     b_gb = os.path.join(scratch, safe + ".b.gb")
     res = {"unit": unit["id"], "job": job["name"], "canary": canary, "kind": job.get("kind", "proved"),
            "bound": job.get("bound"), "status": "undecided", "props": [], "failed": [], "secs": 0.0, "detail": "",
-           "backend": job.get("solver") or "cbmc built-in SAT (minisat2)"}
+           "backend": ("cbmc built-in SAT (minisat2)" if canary else (job.get("solver") or "kissat") )}
     timeout = job.get("timeout", 120)
     defs = ["-D%s=%s" % (k, v) for k, v in job.get("defines", {}).items()]
     if canary:
@@ -162,18 +169,21 @@ def run_job(unit, job, cfile, scratch, canary=False):
     cmd = ["cbmc", gb, "--json-ui"]
     checks = job.get("checks", DEFAULT_CHECKS)
     if canary:
-        cmd += ["--no-standard-checks"]
+        cmd += ["--no-standard-checks", "--stop-on-fail"]
     else:
         cmd += checks + ["--trace"]
     if job.get("unwind"):
         cmd += ["--unwind", str(job["unwind"]), "--unwinding-assertions"]
     if job.get("object_bits"):
         cmd += ["--object-bits", str(job["object_bits"])]
-    if job.get("solver") == "kissat":
+    solver = job.get("solver", "kissat")
+    if canary:
+        pass
+    elif solver == "kissat":
         cmd += ["--external-sat-solver", "kissat"]
-    elif job.get("solver") == "cvc5":
+    elif solver == "cvc5":
         cmd += ["--cvc5"]
-    elif job.get("solver") == "z3":
+    elif solver == "z3":
         cmd += ["--z3"]
     cmd += job.get("cbmc_args", [])
     rc, out, err, _ = sh(cmd, timeout)
@@ -199,8 +209,8 @@ def run_job(unit, job, cfile, scratch, canary=False):
     if canary:
         can = [r for r in results if "VERIF_CANARY" in (r.get("description") or "")]
         if not can:
-            res["detail"] = "canary assertion not present in the harness"
-        elif all(r.get("status") == "FAILURE" for r in can):
+            res["detail"] = "canary not confirmed: first failing obligation was %s" % (results[0].get("description") if results else "none")
+        elif all(str(r.get("status")).upper() in ("FAILURE", "FAILED") for r in can):
             res["status"] = "ok"   # reachable, as it must be
         else:
             res["detail"] = "VACUOUS: canary assertion not reachable (contradictory preconditions / assumptions)"
@@ -216,11 +226,16 @@ def run_job(unit, job, cfile, scratch, canary=False):
     if not results:
         res["detail"] = "zero obligations generated"
         return res
-    unknown = [r for r in failed if r.get("status") not in ("FAILURE",)]
-    if unknown:
-        res["detail"] = "obligation with status %s" % unknown[0].get("status")
+    hard = [r for r in failed if r.get("status") == "FAILURE"]
+    if hard:
+        # obligations reported UNKNOWN next to a FAILURE are not evaluated by cbmc once a goal failed; report the failures only
+        res["failed"] = [f for f in res["failed"] if f["status"] == "FAILURE"]
+        res["status"] = "fail"
         return res
-    res["status"] = "fail" if failed else "ok"
+    if failed:
+        res["detail"] = "obligation with status %s" % failed[0].get("status")
+        return res
+    res["status"] = "ok"
     return res
 
 
